@@ -115,6 +115,11 @@ class GhostStrategy(Strategy):
     def notify(self, action):
         self.trace.append(("notify", str(action.timestamp)))
         self.notified.append(action)
+        # a strategy may trade from inside its notification hook (hedge when told that an order filled): that operation is an
+        # accepted operation of this bar like any other — recorded, stamped with this bar, delivered once at the end of this bar
+        if self.ops.get("notify", 0) and not action.tag.startswith("notify"):
+            m = self.broker.markets.default
+            self.made.append((m.operate(f"notify@{action.tag}", False), str(pd.Timestamp(action.timestamp))))
 
 
 @native
@@ -124,7 +129,14 @@ def build(S, n_bars, hourly, ops, with_trigger):
     a = Actuator()
     m1 = GhostMarket(MarketInfo("m1"), pd.DataFrame({"x": [0] * n_bars}, index=idx), trace)
     a.broker.add_market(m1)
-    if hourly:
+    if hourly == "book":
+        # an hourly market whose frame is indexed by (time, instrument) — one row per listed instrument per hour, as the option
+        # market's is — with MORE ROWS than the minutely market has bars: the bar grid is still the minutely one
+        k = n_bars + 2
+        mi = pd.MultiIndex.from_tuples([(pd.Timestamp(h), f"I{j}") for h in ("2024-01-01 05:00:00", "2024-01-01 06:00:00") for j in range(k)])
+        m2 = GhostMarket(MarketInfo("hourly"), pd.DataFrame({"x": [0] * (2 * k)}, index=mi), trace)
+        a.broker.add_market(m2)
+    elif hourly:
         m2 = GhostMarket(MarketInfo("hourly"), pd.DataFrame({"x": [0, 0]}, index=pd.DatetimeIndex(["2024-01-01 05:00:00", "2024-01-01 06:00:00"])), trace)
         a.broker.add_market(m2)
     a.broker.set_balance(USD_T, Decimal(100))
@@ -138,10 +150,13 @@ def build(S, n_bars, hourly, ops, with_trigger):
 
 
 SHAPES = {"quick": [{"bars": 1, "hourly": False, "ops": {"on_bar": 1}, "trigger": False}, {"bars": 3, "hourly": False, "ops": {"before_bar": 1, "on_bar": 1}, "trigger": True},
-                    {"bars": 3, "hourly": True, "ops": {"on_bar": 1, "after_bar": 1}, "trigger": False}],
+                    {"bars": 3, "hourly": True, "ops": {"on_bar": 1, "after_bar": 1}, "trigger": False},
+                    {"bars": 2, "hourly": False, "ops": {"on_bar": 2, "notify": 1}, "trigger": False}, {"bars": 3, "hourly": "book", "ops": {"on_bar": 1}, "trigger": False}],
           "thorough": [{"bars": 1, "hourly": False, "ops": {"on_bar": 1}, "trigger": False}, {"bars": 3, "hourly": False, "ops": {"on_bar": 1}, "trigger": True},
                        {"bars": 3, "hourly": True, "ops": {"on_bar": 1, "after_bar": 1}, "trigger": False}, {"bars": 4, "hourly": True, "ops": {"before_bar": 1, "on_bar": 2}, "trigger": True},
-                       {"bars": 5, "hourly": False, "ops": {}, "trigger": False}]}
+                       {"bars": 5, "hourly": False, "ops": {}, "trigger": False},
+                       {"bars": 2, "hourly": False, "ops": {"on_bar": 2, "notify": 1}, "trigger": False}, {"bars": 3, "hourly": True, "ops": {"after_bar": 1, "notify": 1}, "trigger": True},
+                       {"bars": 3, "hourly": "book", "ops": {"on_bar": 1}, "trigger": False}, {"bars": 5, "hourly": "book", "ops": {"before_bar": 1}, "trigger": False}]}
 
 
 @native
